@@ -304,6 +304,9 @@ func (c *Check) Finish(verifDir string, meta PropMeta, seed int, extra map[strin
 		cov["rpc_functions_analysed"] = len(c.P.Fns)
 		cov["program_functions"] = c.P.AllFuncs
 		cov["repo"] = c.P.Dir
+		if len(c.P.Roles) > 0 {
+			cov["renamed_helpers_recognised_by_role"] = c.P.Roles
+		}
 	}
 	for k, v := range c.extras {
 		cov[k] = v
